@@ -57,6 +57,10 @@ def run(ctx):
     fe = repo.func(MP, "BzrGitMapping._export_commit") if repo.has(MP, "BzrGitMapping._export_commit") else repo.func(MP, "BzrGitMapping.export_commit")
     wi = f"{MP}:BzrGitMapping.import_commit"
     we = f"{MP}:BzrGitMapping.export_commit"
+    from ..astutil import bind_roles, canonicalise
+
+    fe = canonicalise(fe, bind_roles(fe, {"commit": ("assign", "Commit()"), "metadata": ("assign", "CommitSupplement()"), "mapping_properties": ("assign", lambda t, n: isinstance(n, ast.Set) and "'author-timezone'" in t)}, we))
+    fi = canonicalise(fi, bind_roles(fi, {"properties": ("subscript", "git-explicit-encoding")}, wi))
     wk, wt = written_keys(fi, {"properties", "rev.properties"})
     rk, rt = read_keys(fe, "rev.properties")
     ctx.require(len(wk) >= 9, f"only {len(wk)} property keys written by import_commit (hand-confirmed: 10)")
@@ -143,6 +147,9 @@ def run(ctx):
             if m:
                 gen.add(m.group(1) + (b"-" if m.group(2) else b""))
     par = set()
+    from ..astutil import bind_roles as _br, canonicalise as _cz
+
+    fp = _cz(fp, _br(fp, {"key": ("assign", "~\\w+\\.split\\(b':', 1\\)", 0)}, f"{RT}:parse_roundtripping_metadata"))
     for n in walk_own(fp):
         if isinstance(n, ast.Compare) and norm(n.left) == "key" and isinstance(n.comparators[0], ast.Constant):
             par.add(n.comparators[0].value)
